@@ -1,16 +1,15 @@
 #!/bin/bash
-# usage: confirm_seed.sh <id>   (scratch worktree /tmp/seed-<id> with the change applied, outputs in /tmp/seed-out/<id>)
-id=$1; WT=/tmp/seed-$id; OUT=/tmp/seed-out/$id
+# usage: [SEED_PREFIX=seed3] confirm_seed.sh <id>   (scratch worktree /tmp/<prefix>-<id>, outputs in /tmp/<prefix>-out/<id>)
+id=$1; PFX=${SEED_PREFIX:-seed}; WT=/tmp/$PFX-$id; OUT=/tmp/$PFX-out/$id
 cd $WT || exit 2
 export CARGO_TARGET_DIR=$WT/target
 # make sure the worktree has exactly the patch applied
 git checkout -q -- src Cargo.toml 2>/dev/null; git apply $OUT/patch.diff || { echo "PATCH DOES NOT APPLY"; exit 2; }
-cp $OUT/seed_demo.rs tests/seed_demo.rs
-mv tests/seed_demo.rs /tmp/seed_demo_$id.rs
+rm -f tests/seed_demo.rs
 s=$(cargo test --offline --lib --tests 2>&1 | grep -E "^test result" | awk '{p+=$4; f+=$6} END {print p" passed "f" failed"}')
-mv /tmp/seed_demo_$id.rs tests/seed_demo.rs
+cp $OUT/seed_demo.rs tests/seed_demo.rs
 d1=$(cargo test --offline --test seed_demo 2>&1 | grep -E "^test result" | tail -1)
-git stash push -q -- src Cargo.toml
+git apply -R $OUT/patch.diff
 d2=$(cargo test --offline --test seed_demo 2>&1 | grep -E "^test result" | tail -1)
-git stash pop -q
+git apply $OUT/patch.diff
 echo "$id suite_with_change: $s | demo_with_change: $d1 | demo_without: $d2"
